@@ -43,6 +43,7 @@ def configs(tier, seed):
     for nm, kind, k in (("ms", "dec", 3), ("us", "dec", 6), ("ns", "dec", 9), ("2^-10", "bin", 10), ("2^-20", "bin", 20)):
         out.append({"harness": "scale", "name": "scale-" + nm, "kind": kind, "k": k, "mode": "real"})
     out.append({"harness": "legacy", "name": "legacy-wiring"})
+    out.append({"harness": "legacy", "name": "legacy-wiring-nanosecond-file", "nano": True})
     for i in range(3 if tier == "quick" else 8):
         out.append({"harness": "files", "name": "files-%d" % i, "i": i, "mode": "real", "seed": seed})
     return out
@@ -313,7 +314,12 @@ def _run_legacy(cfg):
         try:
             e1 = RD.RunEnv(mods, blocks, files={"k.log": ""})
             a = c18._summ(RD.run_main(mods, argv, e1))
-            e2 = RD.RunEnv(mods, blocks, files={"k.log": ""})
+            legacy_blocks = None
+            if cfg.get("nano"):
+                # dpkt.pcap.Reader yields decimal.Decimal timestamps for files with the nanosecond magic number
+                from decimal import Decimal
+                legacy_blocks = [(Decimal(ts), buf) for ts, buf in blocks]
+            e2 = RD.RunEnv(mods, blocks, files={"k.log": ""}, legacy_blocks=legacy_blocks)
             b = c18._summ(RD.run_main(mods, argv + ["-l"], e2))
         except Exception as e:
             import traceback
@@ -348,6 +354,9 @@ def _variants(pk):
         "le-foreign-blocks": dict(packets=pk, kw=dict(e="<", extra_blocks=[(0, nrb("<")), (1, isb("<")), (n // 2, cust("<")), (n, isb("<"))])),
         "be-foreign-blocks": dict(packets=pk, kw=dict(e=">", extra_blocks=[(0, cust(">")), (n // 2, nrb(">")), (n, isb(">"))])),
         "legacy-pcap": dict(packets=pk, legacy=True),
+        "legacy-pcap-be": dict(packets=pk, legacy=dict(e=">")),
+        "legacy-pcap-ns": dict(packets=pk, legacy=dict(nano=True)),
+        "legacy-pcap-ns-be": dict(packets=pk, legacy=dict(e=">", nano=True)),
     }
 
 
@@ -447,7 +456,28 @@ def replay(cfg, viol):
         return {"reproduced": back != inp["microseconds"], "written_microseconds": back, "instant_microseconds": inp["microseconds"]}
     if h == "reader":
         return _replay_reader(cfg, inp)
+    if h == "legacy":
+        return _replay_legacy(cfg, inp)
     return {"reproduced": None}
+
+
+def _replay_legacy(cfg, inp):
+    """The concrete TLS 1.2 scenario as pcapng and as legacy pcap (-l) through the real program: same export."""
+    from tlv import e2e
+    from tlv.harness import pipeline as P
+    from tlv.oracle import scenario as SC
+    scfg = {"version": "TLS12", "suite": 0x009c, "suite_name": "TLS_RSA_WITH_AES_128_GCM_SHA256", "records": 2, "max_len": 1, "min_len": 1, "grouping": "one"}
+    items, keylog, _ = SC.build(scfg, SC.ConcreteSrc(inp))
+    pk = e2e.concrete_frames(P.Endpoint(ipv=4), items)
+    kt = e2e.keylog_text(keylog)
+    a = e2e.run_tlexport(pk, kt)
+    b = e2e.run_tlexport(pk, kt, legacy=dict(nano=True) if cfg.get("nano") else True)
+    problems = list(a["problems"][:2]) + list(b["problems"][:2])
+    fa = [(d.get("l4"), d.get("sport"), d.get("payload"), d["ts"][0]) for d in a["frames"]]
+    fb = [(d.get("l4"), d.get("sport"), d.get("payload"), d["ts"][0]) for d in b["frames"]]
+    if not problems and fa != fb:
+        problems.append("export of the legacy pcap differs from the pcapng export (%d vs %d packets)" % (len(fb), len(fa)))
+    return {"reproduced": bool(problems), "problems": problems}
 
 
 def _replay_reader(cfg, inp):
